@@ -40,24 +40,26 @@ Definition inflight (s : mstate) : option (tid * nat * stream * msg) :=
   end.
 
 Section Multi.
-Variable quiets : list bool.
+Variable quiets : list (bool * nat).
 Variable P : tid -> list mop.
 
 Definition settled (s : mstate) : Prop :=
-  forall mb, In mb (members s) -> m_joined mb <= length (glog s) /\ m_sink mb = expected_sink mb (glog s).
+  forall mb, In mb (members s) ->
+    m_joined mb <= length (glog s) /\ (m_failmod mb = 0 -> m_sink mb = expected_sink mb (glog s)).
 
 Record MInv (s : mstate) : Prop := mkMInv {
   mi_held : forall t i, mpcs s t = MHeld i -> mlock s = Some t;
   mi_proj : forall t, gproj t (glog s) ++ mpending s t = mlogs_of (P t);
   mi_init : forall j q, nth_error quiets j = Some q ->
-              exists mb, nth_error (members s) j = Some mb /\ m_joined mb = 0 /\ m_quiet mb = q;
+              exists mb, nth_error (members s) j = Some mb /\ m_joined mb = 0 /\ m_quiet mb = fst q /\
+                         m_failmod mb = snd q;
   mi_sinks : match inflight s with
              | None => settled s
              | Some (t, i, st, x) =>
                  exists g', glog s = g' ++ [(t, st, x)] /\
                    forall j mb, nth_error (members s) j = Some mb ->
                      m_joined mb <= length g' /\
-                     m_sink mb = expected_sink mb (if Nat.ltb j i then glog s else g')
+                     (m_failmod mb = 0 -> m_sink mb = expected_sink mb (if Nat.ltb j i then glog s else g'))
              end
 }.
 
@@ -96,7 +98,7 @@ Proof.
         -- intros t0 i0 H. destruct (Nat.eq_dec t0 t) as [->|Hn]; ups; [exact El | eauto].
         -- intro t0. specialize (I2 t0). unfold mpending in *. simpl.
            destruct (Nat.eq_dec t0 t) as [->|Hn]; ups; [rewrite Epc in I2; exact I2 | exact I2].
-        -- intros j q Hq. destruct (I3 j q Hq) as (mb & H1 & H2 & H3).
+        -- intros j q Hq. destruct (I3 j q Hq) as (mb & H1 & H2 & H3 & H4).
            rewrite nth_error_update_nth, H1. destruct (Nat.eqb j i); simpl.
            ++ eexists. split; [reflexivity|]. unfold deliver. destruct (accepts _ _); simpl; auto.
            ++ eauto.
@@ -107,11 +109,15 @@ Proof.
               inversion H; subst mb'; clear H. destruct (I4 i mb En) as [J1 J2].
               rewrite Nat.ltb_irrefl in J2.
               replace (Nat.ltb i (S i)) with true by (symmetry; apply Nat.ltb_lt; lia).
-              assert (Q : m_quiet (deliver mb t st x) = m_quiet mb /\ m_joined (deliver mb t st x) = m_joined mb).
+              assert (Q : m_quiet (deliver mb t st x) = m_quiet mb /\ m_joined (deliver mb t st x) = m_joined mb /\
+                          m_failmod (deliver mb t st x) = m_failmod mb).
               { unfold deliver. destruct (accepts _ _); simpl; auto. }
-              destruct Q as [Q1 Q2]. split; [now rewrite Q2|].
+              destruct Q as (Q1 & Q2 & Q3). split; [now rewrite Q2|]. rewrite Q3. intro Hh.
+              (* a healthy member: this write does not fail, whatever happened at the members before it *)
+              assert (Hf : fails mb = false) by (unfold fails; now rewrite Hh).
               rewrite (expected_sink_ext _ mb _ Q1 Q2), Eg, expected_sink_snoc by exact J1.
-              unfold deliver. destruct (accepts (m_quiet mb) st); simpl; [now rewrite J2 | now rewrite app_nil_r].
+              unfold deliver. rewrite Hf.
+              destruct (accepts (m_quiet mb) st); simpl; [now rewrite (J2 Hh) | rewrite app_nil_r; exact (J2 Hh)].
            ++ destruct (I4 j mb' H) as [J1 J2]. split; [exact J1|].
               destruct (Nat.ltb_spec j i), (Nat.ltb_spec j (S i)); try lia; exact J2.
       * destruct I as [I1 I2 I3 I4]. unfold inflight in I4. rewrite El, Epc, Epr in I4.
@@ -135,11 +141,11 @@ Proof.
         specialize (I1 _ _ H). congruence.
       * intro t0. specialize (I2 t0). unfold mpending in *. simpl.
         destruct (Nat.eq_dec t0 t) as [->|Hn]; ups; [rewrite Epc, Epr in I2; exact I2 | exact I2].
-      * intros j q0 Hq. destruct (I3 j q0 Hq) as (mb & H1 & H2 & H3). exists mb.
+      * intros j q0 Hq. destruct (I3 j q0 Hq) as (mb & H1 & H2 & H3 & H4). exists mb.
         split; [|auto]. rewrite nth_error_app1; [exact H1 | apply nth_error_Some; congruence].
       * unfold inflight, settled. simpl. intros mb Hin. apply in_app_or in Hin. destruct Hin as [Hin|[<-|[]]].
         -- now apply I4.
-        -- simpl. split; [lia|]. unfold expected_sink. simpl. now rewrite skipn_all.
+        -- simpl. split; [lia|]. intros _. unfold expected_sink. simpl. now rewrite skipn_all.
     + (* SetLogSource *)
       inversion St; subst s'; clear St.
       destruct I as [I1 I2 I3 I4]. unfold inflight in I4. rewrite El, Epc, Epr in I4.
@@ -166,16 +172,16 @@ Proof.
   constructor; simpl.
   - intros; discriminate.
   - reflexivity.
-  - intros j q H. exists (mkMember q 0 []). split; [|auto]. now rewrite nth_error_map, H.
+  - intros j q H. exists (mkMember (fst q) (snd q) 0 0 []). split; [|auto]. now rewrite nth_error_map, H.
   - unfold inflight, settled. simpl. intros mb Hin. apply in_map_iff in Hin. destruct Hin as [q [<- _]].
     simpl. split; [lia | reflexivity].
 Qed.
 
-Lemma multi_delivers_all_l : forall (quiets : list bool) (Pl : list (list mop)) (sched : list tid) (s : mstate),
+Lemma multi_delivers_all_l : forall (quiets : list (bool * nat)) (Pl : list (list mop)) (sched : list tid) (s : mstate),
   mrun (minit quiets Pl) sched = Some s -> mlock s = None ->
-  (forall mb, In mb (members s) -> m_sink mb = expected_sink mb (glog s)) /\
+  (forall mb, In mb (members s) -> m_failmod mb = 0 -> m_sink mb = expected_sink mb (glog s)) /\
   (forall j q, nth_error quiets j = Some q ->
-     exists mb, nth_error (members s) j = Some mb /\ m_joined mb = 0 /\ m_quiet mb = q) /\
+     exists mb, nth_error (members s) j = Some mb /\ m_joined mb = 0 /\ m_quiet mb = fst q /\ m_failmod mb = snd q) /\
   (forall t, gproj t (glog s) ++ mpending s t = mlogs_of (nth t Pl [])).
 Proof.
   intros quiets Pl sched s R L. pose proof (mrun_inv quiets _ sched _ _ (minit_inv quiets Pl) R) as I.
